@@ -1,3 +1,25 @@
 //! Safe-Rust verification hooks for this module (accessors/wrappers only; no logic).
 #![allow(unused_imports, dead_code)]
 use super::*;
+
+// --- C30 (np_misc_h): message types live in a private module; re-export only.
+pub use super::KeyExchangeResponse as Response;
+pub use super::Request as KeRequest;
+// `NextProtocol` is a private enum: expose the protocol ids of parsed messages as their wire value.
+pub fn request_protocol_count(r: &Request<'_>) -> usize {
+    match r {
+        Request::KeyExchange { protocols, .. } => protocols.len(),
+        Request::FixedKey { .. } => 1,
+        Request::Support { .. } => 0,
+    }
+}
+pub fn request_protocol_at(r: &Request<'_>, i: usize) -> u16 {
+    match r {
+        Request::KeyExchange { protocols, .. } => protocols[i].into(),
+        Request::FixedKey { protocol, .. } => (*protocol).into(),
+        Request::Support { .. } => 0,
+    }
+}
+pub fn response_protocol(r: &KeyExchangeResponse<'_>) -> u16 {
+    r.protocol.into()
+}
